@@ -453,6 +453,13 @@ def run_property(pid, tier, seed, jobs=None, budget_s=None, runs=None, out=sys.s
 
 
 def write_evidence(mod, tier, seed, agg, extra_info, wall, reported, jobs):
+    # evidence describes runs against the repository itself; runs against a scratch copy (mutation /
+    # seeded-change experiments, VERIF_REPO set elsewhere) must not overwrite it
+    repo = os.path.realpath(os.environ.get("VERIF_REPO", "/repo"))
+    if repo != os.path.realpath("/repo") and "VERIF_EVIDENCE_DIR" not in os.environ:
+        return
+    global EVID_DIR
+    EVID_DIR = os.environ.get("VERIF_EVIDENCE_DIR", EVID_DIR)
     os.makedirs(EVID_DIR, exist_ok=True)
     cov = {
         "evaluations": int(agg.evals),
